@@ -62,6 +62,46 @@ def generate(tier, seed):
             lines = initial_lines(rnd, dom, True)
             cases.append(case("eng", sp, adapter_M(lines), "-", steps))
             dist["random"] += 1
+    # two role definitions of DIFFERENT arity (g = _, _ ; g2 = _, _, _) over shared names
+    m = And(Call("g", V("r", "sub"), V("p", "sub")), Call("g2", V("r", "obj"), V("p", "obj"), V("r", "dom")), Eq(V("r", "act"), V("p", "act")))
+    sp = "r=sub,dom,obj,act;p=sub,obj,act;g=2;g2=3;e=AO;m={%s}" % m
+    GA = [["alice", "admin"], ["bob", "admin"], ["data1", "res"]]
+    GB = [["data1", "res", "d1"], ["data2", "res", "d1"], ["alice", "admin", "d1"], ["data1", "res", "d2"]]
+    al = []
+    for r in GA:
+        al += [A("g", "g", r), R("g", "g", r)]
+    for r in GB:
+        al += [A("g", "g2", r), R("g", "g2", r)]
+    al += [RF("g", "g2", 0, ["data1"]), RF("g", "g2", 1, ["res"]), RF("g", "g2", 2, ["d1"]), RF("g", "g", 1, ["admin"]), RF("g", "g", 0, ["data1"]),
+           AM("g", "g2", GB[:2]), RM("g", "g2", GB[:2]), "CL", "LD"]
+    qs = [Q_e(["alice", "d1", "data1", "read"]), Q_e(["alice", "d1", "data2", "read"]), Q_e(["bob", "d2", "data1", "read"]),
+          "?hl:data1:res:d1", "?hl:data1:res:-", "?hl:alice:admin:-", "?hl:alice:admin:d1", "?rf:alice:-", "?uf:admin:-"]
+    lines = [["p", "p", "admin", "res", "read"], ["g", "g"] + GA[0], ["g", "g"] + GA[2], ["g", "g2"] + GB[0], ["g", "g2"] + GB[2]]
+    for k in (1, 2):
+        hs = list(itertools.product(al, repeat=k))
+        if k == 2 and tier == "quick":
+            hs = rnd.sample(hs, 300)
+        for h in hs:
+            steps = []
+            for o in h:
+                steps += [o] + qs + ["BR"] + qs
+            cases.append(case("eng", sp, adapter_M(lines), "-", steps))
+            dist["exhaustive"] += 1
+    # p/p2 + g/g2 with names shared across the sibling types
+    sp = multi_spec()
+    al = [o for o in multi_alphabet() if o.split(":")[1:2] == ["g"] or o[:2] in ("dr", "du", "CL")] + ["LD", "SR:10"]
+    qs = [Q_e(["alice", "data1", "read"]), Q_e(["bob", "data2", "read"]), Q_e(["ops", "res", "read"]), "?rf:alice:-", "?uf:ops:-", "?ir:bob:-",
+          "?hl:data1:res:-", "?hl:alice:admin:-"]
+    for k in (1, 2):
+        hs = list(itertools.product(al, repeat=k))
+        if k == 2 and tier == "quick":
+            hs = rnd.sample(hs, 300)
+        for h in hs:
+            steps = []
+            for o in h:
+                steps += [o] + qs + ["BR"] + qs
+            cases.append(case("eng", sp, adapter_M(multi_lines()), "-", steps))
+            dist["exhaustive"] += 1
     return {
         "cases": cases,
         "exhaustive": False,
